@@ -44,6 +44,13 @@ Definition fresh (m : Z) : table := construct dummy_table m.
 Definition upd {A} (f : Z -> A) (i : Z) (x : A) : Z -> A := fun j => if j =? i then x else f j.
 
 Definition zrange (n : Z) : list Z := map Z.of_nat (seq 0 (Z.to_nat n)).
+
+(* the same array, with offsets 0 .. n-1 evaluated once (only matters for the running time of the extracted model) *)
+Definition tabulate {A} (f : Z -> A) (n : Z) : Z -> A :=
+  let l := map f (zrange n) in
+  fun i => if (0 <=? i) && (i <? n)
+           then match nth_error l (Z.to_nat i) with Some x => x | None => f i end
+           else f i.
 (* offsets inside one SIMD group, in GroupIterator order (ascending) *)
 Definition offsets : list Z := zrange SIZE.
 
@@ -142,8 +149,8 @@ Definition clear_ctrl (t : table) : Z -> Z := fun i =>
 Definition tclear (t : table) : table :=
   if dummy t then construct t clear_dummy_arg
   else if cnt t =? 0 then t
-  else mkT false (mask t) (clear_ctrl t)
-           (fun i => if (0 <=? i) && (i <? bcount t) && (0 <=? ctrl t i) then None else vals t i) 0.
+  else mkT false (mask t) (tabulate (clear_ctrl t) (bcount t + 2 * SIZE))
+           (tabulate (fun i => if (0 <=? i) && (i <? bcount t) && (0 <=? ctrl t i) then None else vals t i) (bcount t)) 0.
 
 (* `for (auto& value : saved_table) emplace(std::move(value));` - results ignored *)
 Definition refill (t : table) (l : list elem) : table := fold_left (fun acc e => fst (templace acc e)) l t.
